@@ -150,10 +150,13 @@ func init() {
 	concStub := []string{"thread scheduler (real goroutines released one at a time at the repo hooks and, in the lock-instrumented scratch copy, before every Lock/RLock of the library; enabledness from the real latch and mutex words)", "link: FIFO with seeded delay in front of the real commit.Channel", "disk: in-memory SimFile/SimReader under the real commit.Log and Snapshot/Restore"}
 	register(&PropDef{
 		ID: "C06", Quick: 12000, Thorough: 1000000, Level: "exploration",
-		Rule: "2-5 concurrent writer threads (all column kinds, inserts with offset reuse, deletes, merges, multi-block transactions) on a primary whose every commit is tapped inside the block latch and forwarded to a real commit.Channel (consumed by an applier thread after a seeded link delay and replayed on REPLICA-C) and to a real commit.Log on a SimFile (replayed on REPLICA-L through a chunking reader); in odd runs a snapshotter thread takes snapshots meanwhile; schedule drawn per run from uniform/sticky/PCT/round-robin/phase-biased strategies over all hook points; at quiescence Dump(primary)==Dump(REPLICA-C)==Dump(REPLICA-L)==model; every 16th run is the stalled-consumer world: single-client history inside a testing/synctest bubble whose stream goes into a real commit.Channel of capacity 1-8 read by a consumer that is away 50 ms..1 h (fake clock) before every k-th receive; once it has drained the channel nothing may be missing and the replica must equal the model; non-trivial = at least one commit and at least one scheduling decision with more than one enabled thread; distinct = distinct (interleaving signature, end state)",
+		Rule: "2-5 concurrent writer threads (all column kinds, inserts with offset reuse, deletes, merges, multi-block transactions) on a primary whose every commit is tapped inside the block latch and forwarded to a real commit.Channel (consumed by an applier thread after a seeded link delay and replayed on REPLICA-C) and to a real commit.Log on a SimFile (replayed on REPLICA-L through a chunking reader); in odd runs a snapshotter thread takes snapshots meanwhile; schedule drawn per run from uniform/sticky/PCT/round-robin/phase-biased strategies over all hook points; at quiescence Dump(primary)==Dump(REPLICA-C)==Dump(REPLICA-L)==model; every 16th run is the stalled-consumer world: single-client history inside a testing/synctest bubble whose stream goes into a real commit.Channel of capacity 1-8 read by a consumer that is away 50 ms..1 h (fake clock) before every k-th receive; once it has drained the channel nothing may be missing and the replica must equal the model; another 16th is the file-log world: the stream of a single-client history goes through commit.OpenFile on a real file in the private TMPDIR, the log object is dropped and opened anew on the same file half-way (read to its end, then appended to), and a replica fed by ranging over the file through a third handle must equal the model; non-trivial = at least one commit and at least one scheduling decision with more than one enabled thread; distinct = distinct (interleaving signature, end state)",
 		Gen: func(seed uint64, run int, tier string) *Case {
 			if run%16 == 13 {
 				return genStalled("C06", seed, run) // fault: the consumer of the change stream stalls
+			}
+			if run%16 == 5 {
+				return genFileLog("C06", seed, run) // the stream goes through commit.OpenFile on a real file
 			}
 			return genConc("C06", seed, run, concProfile{minWriters: 2, maxWriters: 5, maxTxns: 3, maxOps: 4, replicas: true, snapshots: run % 2,
 				wUpdate: 6, wMerge: 5, wInsert: 4, wDeleteOwn: 3, wRangeWrite: 1, wKey: 8,
@@ -162,6 +165,9 @@ func init() {
 		Exec: func(cs *Case) *World {
 			if cs.World == "stalled" {
 				return runStalled(cs)
+			}
+			if cs.World == "filelog" {
+				return runFileLog(cs)
 			}
 			return runConc(cs, concOracles{replicas: true})
 		},
